@@ -24,7 +24,7 @@ Arguments N.leb : simpl never.
 
 Ltac Zify.zify_post_hook ::= Z.div_mod_to_equations.
 
-Definition bytes := list byte.
+Notation bytes := (list byte) (only parsing).
 
 Definition b2n (b : byte) : N := Byte.to_N b.
 Definition n2b (n : N) : byte :=
